@@ -345,7 +345,9 @@ func (c *EvalCtx) evalObject(obj types.Object) (TV, error) {
 			return TV{Val: v, Ty: o.Type()}, nil
 		}
 		loc := c.e.globalLoc(g)
-		return TV{Val: c.e.load(c.st, loc, o.Type()), Ty: o.Type()}, nil
+		gv := c.e.load(c.st, loc, o.Type())
+		c.assumeLoadedValid(gv, o.Type())
+		return TV{Val: gv, Ty: o.Type()}, nil
 	case *types.Func:
 		sp := c.e.P.SSA.Package(o.Pkg())
 		if sp != nil {
